@@ -205,9 +205,12 @@ def evaluate(cfg):
 
 
 def fixed_cases(tier):
+    from .C16 import date_cases
     from .common import back_to_back_cases
 
-    return back_to_back_cases()
+    # calendar boundaries: windows starting / ending on 29 February, on / one day around a planting date, at year
+    # boundaries, partial and minimum-length (one-day) seasons, explicit harvest dates
+    return back_to_back_cases() + date_cases()
 
 
 simplifications = cfg_simplifications
